@@ -18,6 +18,8 @@ class Harness(Elaboratable):
     domains = ("usb",)
     #: optional cyclic schedule: list of domain-name tuples, one entry per step
     schedule = None
+    #: optional multi-rate clocks {domain: (period_in_steps, phase_step)}; the domain ticks at steps t % period == phase
+    clocks = None
 
     def __init__(self):
         self._inputs = {}
